@@ -18,18 +18,21 @@ import HkModel.Drive.OpFront
 /-! `hkdriver <mode>`: reads protocol lines on stdin, answers one line per input line. -/
 open Hk
 
+/-- one verdict = one line: `repr` of a structure contains line breaks -/
+def oneLine (s : String) : String := String.ofList (s.toList.map (fun c => if c == '\n' || c == '\r' then ' ' else c))
+
 partial def loopQueue (h : IO.FS.Stream) (out : IO.FS.Stream) (ds : DriveQueue.DState) : IO DriveQueue.DState := do
   let line ← h.getLine
   if line.isEmpty then return ds
   let (ds', outs) := DriveQueue.processLine ds line
-  for o in outs do out.putStrLn o
+  for o in outs do out.putStrLn (oneLine o)
   loopQueue h out ds'
 
 /-- stateless modes: one answer line per input line, then a summary -/
 partial def loopPure (h : IO.FS.Stream) (out : IO.FS.Stream) (f : String → String) (n bad : Nat) : IO (Nat × Nat) := do
   let line ← h.getLine
   if line.isEmpty then return (n, bad)
-  let o := f line
+  let o := oneLine (f line)
   out.putStrLn o
   loopPure h out f (n + 1) (if o == "ok" then bad else bad + 1)
 
@@ -43,14 +46,16 @@ def runPure (f : String → String) : IO UInt32 := do
 partial def loopAuth (h : IO.FS.Stream) (out : IO.FS.Stream) (st : DriveAuth.AState) : IO DriveAuth.AState := do
   let line ← h.getLine
   if line.isEmpty then return st
-  let (st', o) := DriveAuth.step st line
+  let (st', o0) := DriveAuth.step st line
+  let o := oneLine o0
   out.putStrLn o
   loopAuth h out { st' with n := st'.n + 1, bad := if o == "ok" then st'.bad else st'.bad + 1 }
 
 partial def loopPull (h : IO.FS.Stream) (out : IO.FS.Stream) (st : DrivePull.PD) : IO DrivePull.PD := do
   let line ← h.getLine
   if line.isEmpty then return st
-  let (st', o) := DrivePull.step st line
+  let (st', o0) := DrivePull.step st line
+  let o := oneLine o0
   out.putStrLn o
   loopPull h out { st' with n := st'.n + 1, bad := if o == "ok" then st'.bad else st'.bad + 1 }
 
